@@ -6,6 +6,6 @@ cd /repo || exit 2
 git apply "$p" || { echo "patch does not apply"; exit 2; }
 for c in "$@"; do
   echo "=== $c against $(basename $(dirname $p))"
-  ( cd /verif && timeout 1500 ./run $c ${TIER:-quick} 2>&1 | grep -E "signature|VIOLATION|KNOWN|exit|INCONCLUSIVE|BUILD" | head -12 )
+  ( cd /verif && timeout 1500 ./run $c ${TIER:-quick} 2>&1 | grep -E "signature|VIOLATION|KNOWN|exit|INCONCLUSIVE|BUILD" | head -60 )
 done
 git -C /repo checkout -- . 
